@@ -152,6 +152,7 @@ type Description struct {
 	FaultKinds                  []string
 	Workers                     int     // preferred number of worker processes (0 = 16)
 	QuickBudget, ThoroughBudget float64 // exploration wall-clock seconds per tier (0 = 45 / 1200)
+	RunTimeout                  float64 // wall-clock watchdog per run in seconds (0 = 120)
 }
 
 type Component struct {
@@ -306,6 +307,10 @@ func runWorker(p Prop, seed uint64, tier string, from, stride, count int, deadli
 	out := workerOut{Faults: map[string]int{}, FaultRuns: map[string]int{}, Probes: map[string]int{}, Counters: map[string]int{},
 		VioCount: map[string]int{}, KnownCount: map[string]int{}, Obs: map[string]int{}, Strategies: map[string]int{}}
 	known := loadKnown(p.ID())
+	watchdog := 120 * time.Second
+	if t := p.Describe().RunTimeout; t > 0 {
+		watchdog = time.Duration(t * float64(time.Second))
+	}
 	kept := map[string]int{}
 	hashes := map[uint64]struct{}{}
 	states := map[uint64]struct{}{}
@@ -328,9 +333,9 @@ func runWorker(p Prop, seed uint64, tier string, from, stride, count int, deadli
 		var res *Result
 		select {
 		case res = <-done:
-		case <-time.After(120 * time.Second):
+		case <-time.After(watchdog):
 			b, _ := json.Marshal(sc)
-			fmt.Fprintf(os.Stderr, "WATCHDOG: run %d (seed %d) did not finish in 120 s wall-clock; scenario %s\n", i, rs, b)
+			fmt.Fprintf(os.Stderr, "WATCHDOG: run %d (seed %d) did not finish in %v wall-clock; scenario %s\n", i, rs, watchdog, b)
 			os.Exit(2)
 		}
 		out.Runs++
@@ -716,8 +721,12 @@ func batch(p Prop, seed uint64, tier string, count int, budget float64, workers 
 		}
 		er, err := ex.ExtraPhase(tier, seed, time.Now().Add(time.Duration(eb*float64(time.Second))))
 		if err != nil {
-			fmt.Fprintf(os.Stderr, "INFRASTRUCTURE: %v\n", err)
-			return 2
+			// the second layer is an addition to the claim, not its basis: trouble
+			// with it (a program that does not build, a wall-clock time-out on a
+			// loaded machine) is recorded, not turned into a failing check
+			fmt.Fprintf(os.Stderr, "note: second layer not completed: %v\n", err)
+			extraCov, extraName = map[string]any{"not_completed": err.Error()}, "layer_b"
+			er = nil
 		}
 		if er != nil {
 			extraCov, extraName = er.Coverage, er.Name
